@@ -45,6 +45,11 @@ func (s *Sched) Gate(kind, id string) {
 	}
 	w := &waiter{key: kind + ":" + id, ch: make(chan struct{})}
 	s.mu.Lock()
+	// two workers may wait under one name: after a cache entry was evicted a late answer can still reach the old entry's
+	// queue while a new entry of the same name has work of its own; each gets its own key
+	for n := 2; s.parked[w.key] != nil; n++ {
+		w.key = fmt.Sprintf("%s:%s~%d", kind, id, n)
+	}
 	s.parked[w.key] = w
 	s.cond.Broadcast()
 	s.mu.Unlock()
